@@ -44,6 +44,16 @@ def hval_cases(rng, n, op="hval"):
         cases.append(f"{op}\t{hexs(rng.choice(NAMES))}\t{hexs(text(rng))}")
     for v in ["a" + " " * 1000 + "b", "a" + " " * 1000 + "é", "a" + " " * 30 + "é" * 30, "word" + " " * 12 + "é" * 40 + " x"]:
         cases.append(f"{op}\t{hexs('Subject')}\t{hexs(v)}")
+    # the class of theorem C02.text_value_folded: visible-ASCII words of 1..75 octets separated by single spaces, the first
+    # one fitting after the name (the model must agree octet for octet, and the 78-octet oracle has no excuse here)
+    vis = "".join(chr(c) for c in range(33, 127))
+    for _ in range(max(20, n // 10)):
+        nm = "N" * rng.choice([1, 7, 20, 40, 60, 74])
+        k = rng.choice([1, 2, 3, 10, 40, 150])
+        hi = rng.choice([3, 10, 30, 75])
+        ws = ["".join(rng.choice(vis if rng.random() < 0.5 else "abcxyz") for _ in range(rng.randint(1, hi))) for _ in range(k)]
+        ws[0] = ws[0][:max(1, 78 - len(nm) - 2)]
+        cases.append(f"{op}\t{hexs(nm)}\t{hexs(' '.join(ws))}")
     for size in (1000, 10000, 65536):
         cases.append(f"{op}\t{hexs('Subject')}\t{hexs(('é word ' * size)[:size])}")
     return cases
